@@ -217,3 +217,23 @@ Section Mat.
   Definition np_matmul (A N : list (list F)) : list (list F) :=
     let q := length (hd [] N) in map (fun a => vsum O q (map2 (vscale O) a N)) A.
 End Mat.
+
+(* np.kron(np.ones((k,)), v) and np.kron(v, np.ones((k,))) for 1-D v: v tiled k times / every entry repeated k times *)
+Definition py_tile (k : Z) (v : list Z) : list Z := concat (repeat v (Z.to_nat k)).
+Definition py_repeat_each (v : list Z) (k : Z) : list Z := flat_map (fun x => repeat x (Z.to_nat k)) v.
+
+Lemma py_tile_of_nat (k : nat) (l : list nat) :
+  py_tile (Z.of_nat k) (map Z.of_nat l) = map Z.of_nat (concat (repeat l k)).
+Proof.
+  unfold py_tile. rewrite Nat2Z.id. induction k as [|k IH]; [reflexivity|].
+  cbn [repeat concat]. rewrite map_app, IH. reflexivity.
+Qed.
+Lemma py_repeat_each_of_nat (l : list nat) (k : nat) :
+  py_repeat_each (map Z.of_nat l) (Z.of_nat k) = map Z.of_nat (flat_map (fun q => repeat q k) l).
+Proof.
+  unfold py_repeat_each. rewrite Nat2Z.id. induction l as [|x l IH]; [reflexivity|].
+  cbn [map flat_map]. rewrite map_app, IH. f_equal. clear IH.
+  induction k as [|k IHk]; [reflexivity|]. cbn [repeat map]. rewrite IHk. reflexivity.
+Qed.
+Lemma py_arange0_nat (n : nat) : py_arange 0 (Z.of_nat n) = map Z.of_nat (seq 0 n).
+Proof. change 0 with (Z.of_nat 0). replace (Z.of_nat n) with (Z.of_nat 0 + Z.of_nat n) by lia. apply py_arange_nat. Qed.
